@@ -448,7 +448,13 @@ def run(ctx):
         if impl[k] and impl[k][-1] in (-996, -997, -998):
             ctx.count("ends:%d" % impl[k][-1])
             ctx.nontrivial(("crash-marker", impl[k][-1]))
-        key = oracle(ctx, c, impl[k])
+        if impl[k] == [-996]:
+            continue                      # already reported with its input by run_harness
+        try:
+            key = oracle(ctx, c, impl[k])
+        except (IndexError, ValueError):
+            ctx.oracle_fail("observation stream of the implementation is shorter than the history", dict(line=lines[k]), key="c08-short-output")
+            key = None
         if key is not None:
             ctx.count(key[0])
             ctx.nontrivial(key)
